@@ -4,6 +4,8 @@
 //! Stand-ins: `tracing`, `vcoll` (HashSet/HashMap).
 //! @needs: socket closest_nodes
 use super::*;
+#[allow(unused_imports)]
+use crate::verif_env::k as kani;
 use crate::actor::socket::kani_h::{fake_socket, rtt_stub, send_stub, srt_stub, SENT_N, SENT_TO};
 use crate::common::kani_h_closest_nodes::closest_from;
 use crate::verif_env::{clock, rnd};
